@@ -404,8 +404,8 @@ def log_amp(lo_exp, hi_exp):
 
 @st.composite
 def special_model_st(draw, cplx=None, max_modes=4, beta_lo=0.1, beta_hi=200.0, symm_modes=("default", "ignore", "custom"), wide=False, tiny_field=False, wide_beta_e=3e4):
-    """tiny_field=True: always the wide family with a Zeeman field between 1e-13 and 3e-10 (level splittings well below the default
-    1e-8 resonance tolerance; splittings of about 1e-8 itself are the known finding D22 and are excluded here by construction); non-interacting, atomic-limit and particle-hole symmetric Hubbard models on spin-1/2 single-orbital sites;
+    """tiny_field=True: always the wide family with a Zeeman field between 1e-13 and 1e-7 (level splittings below the default
+    1e-8 resonance tolerance, at it - where D22 was found - or just above it); non-interacting, atomic-limit and particle-hole symmetric Hubbard models on spin-1/2 single-orbital sites;
     wide=True adds Hubbard clusters whose parameters span many orders of magnitude (strong coupling, tiny fields)"""
     if cplx is None:
         cplx = draw(st.booleans())
@@ -457,7 +457,7 @@ def special_model_st(draw, cplx=None, max_modes=4, beta_lo=0.1, beta_hi=200.0, s
         for a in range(nsites - 1):
             terms.append(P("hop3", labs[a], labs[a + 1], [draw(log_amp(-4, 1)), 0.0]))
         if tiny_field or thr or draw(st.integers(0, 2)) == 0:
-            h = abs(draw(log_amp(-6.2, -4))) if thr else abs(draw(log_amp(-13, -9.5 if tiny_field else -1)))
+            h = abs(draw(log_amp(-6.2, -4))) if thr else abs(draw(log_amp(-13, -7 if tiny_field else -1)))
             l = draw(st.sampled_from(labs))
             if draw(st.booleans()):      # longitudinal field h (n_up - n_dn) / transverse field h (c+_up c_dn + h.c.)
                 terms += with_hc([h, 0.0], [[1, l, 0, 0], [0, l, 0, 0]]) + with_hc([-h, 0.0], [[1, l, 0, 1], [0, l, 0, 1]])
